@@ -368,7 +368,7 @@ func parseNetworkMessage(version uint8, data []byte) (*PeerMessage, error) {
 	msg := &PeerMessage{Type: data[0], version: version}
 	switch msg.Type {
 	case PeerMessageTypePreCommitments:
-		if len(data) < 80 {
+		if len(data) < 67 { // type, signature and count: an empty list is a well-formed message
 			return nil, fmt.Errorf("invalid commitments message size %d", len(data))
 		}
 		var sig crypto.Signature
@@ -481,7 +481,7 @@ func parseNetworkMessage(version uint8, data []byte) (*PeerMessage, error) {
 			}
 		}
 	case PeerMessageTypeBatchFullChallenge:
-		if len(data[1:]) < 256 {
+		if len(data[1:]) < 237 { // size 4, smallest signed snapshot 168, two points 64, empty transactions payload 1
 			return nil, fmt.Errorf("invalid full challenge message size %d", len(data[1:]))
 		}
 		offset := 1 + 4
